@@ -306,13 +306,28 @@ class Cluster:
         self.var_names: List[str] = []
 
 
-CURRENT: Dict[str, Any] = {"sched": None, "s3": None, "cluster": None, "local": True}
+CURRENT: Dict[str, Any] = {"sched": None, "s3": None, "cluster": None, "local": True, "xnames": None, "wof": []}
+
+
+def _xname(name):
+    """Names are how independent worker processes find the shared Variable / Lock.  When the
+    harness has had the REAL code compute them in separate interpreters (c18_xproc, distinct hash
+    salts), the name a worker's thread asks for here is replaced by the one *that worker's
+    process* computed for the same request (identical on an unchanged tree)."""
+    xn = CURRENT.get("xnames")
+    sched = CURRENT.get("sched")
+    tid = sched.current() if sched is not None else None
+    if not xn or tid is None or not isinstance(name, str):
+        return name
+    w = CURRENT["wof"][tid]
+    return xn[w % len(xn)].get(name.split("-", 1)[0], name)
 
 
 class FakeVariable:
-    """`distributed.Variable`: get of an unset / deleted variable times out"""
+    """`distributed.Variable(name=None, client=None)`: get of an unset / deleted variable times out"""
 
     def __init__(self, name=None, client=None):
+        name = _xname(name)
         self.name = name
         cl: Cluster = CURRENT["cluster"]
         if name not in cl.var_names:
@@ -338,25 +353,50 @@ class FakeVariable:
 
 
 class FakeDLock:
-    """`distributed.Lock(name, client)`: all objects of one name share one lock"""
+    """`distributed.Lock(name=None, scheduler_rpc=None, loop=None)` as installed (the signature is
+    compared with the real class on every run): all objects of one name share one lock; like the
+    real one it resolves the current client / worker itself, and an object passed as
+    `scheduler_rpc` that cannot register a semaphore fails when the lock is entered."""
 
-    def __init__(self, name=None, client=None):
+    def __init__(self, name=None, scheduler_rpc=None, loop=None):
         cl: Cluster = CURRENT["cluster"]
-        self._lk = cl.locks.setdefault(name, FakeLock())
+        self.name = _xname(name)
+        self._rpc = scheduler_rpc
+        self._lk = cl.locks.setdefault(self.name, FakeLock())
+
+    def _register(self):
+        if self._rpc is not None and not hasattr(self._rpc, "semaphore_register"):
+            raise AttributeError(f"'{type(self._rpc).__name__}' object has no attribute 'semaphore_register'")
 
     def acquire(self, *a, **kw):
+        self._register()
         return self._lk.acquire()
 
     def release(self):
         return self._lk.release()
 
     def __enter__(self):
+        self._register()
         self._lk.acquire()
         return self
 
     def __exit__(self, *exc):
         self._lk.release()
         return False
+
+
+def fake_signatures_match() -> Dict[str, Any]:
+    """the fakes must have the call signatures of the installed library"""
+    import inspect
+
+    import distributed
+
+    out = {}
+    for nm, real, fake in (("Lock", distributed.Lock, FakeDLock), ("Variable", distributed.Variable, FakeVariable)):
+        r = list(inspect.signature(real.__init__).parameters)
+        f = list(inspect.signature(fake.__init__).parameters)
+        out[nm] = {"real": r, "fake": f, "ok": r == f}
+    return out
 
 
 def fake_get_client(*a, **kw):
@@ -429,6 +469,9 @@ class System:
                  (mpu.cancel()) or "crash" (nothing: task failure / interrupt before finalise)
         copies : how the per-worker copies are made ("pickle" | "deepcopy")
         chain  : thread i may start only when thread i-1 has returned
+        build_without_client : the writer is built while no client exists, then used on the cluster
+        xnames : per worker {prefix: name} - the Variable / Lock names that worker's own interpreter
+                 process computed (see `_xname`)
         late_clone : per thread None or "pickle" | "copy" | "deepcopy": the thread does not use its
                  worker's writer but a copy of writer 0 taken at the moment the thread starts
     The REAL `_dask_client`, `MultiPartUpload.writer`, `prep_client`, `_shared`, `_build_name`,
@@ -458,7 +501,8 @@ class System:
             self.made_locks.append(lk)
             return lk
 
-        CURRENT.update(sched=self.sched, s3=self.s3, cluster=self.cluster, local=workers is None)
+        CURRENT.update(sched=self.sched, s3=self.s3, cluster=self.cluster, local=workers is None,
+                       xnames=opts.get("xnames"), wof=list(workers or []))
         self._saved = (
             distributed.get_client,
             distributed.Variable,
@@ -474,12 +518,22 @@ class System:
 
         cls = instr_mpu_class()
         # ---- history (runs on this thread: yield points are no-ops, steps are sequential)
+        self.pre_error: Optional[str] = None
         for ph in opts.get("pre", []):
+            try:
+                self._phase(cls, ph)
+            except Exception as e:  # pylint: disable=broad-except
+                self.pre_error = f"{type(e).__name__}: {e}"
+                break
+        self._attempt(cls, kinds, workers, opts)
+
+    def _phase(self, cls, ph):
+        if True:  # pylint: disable=using-constant-test
             CURRENT["local"] = not ph["client"]
             m0 = cls("bucket", "some/key.tif")
             w0 = m0.writer(dict(KW))  # the real `_dask_client` decides; `prep_client` if a client exists
             if ph["op"] == "ask":
-                continue
+                return
             if ph["client"]:
                 wk = ph.get("workers") or [0] * len(ph["parts"])
                 cps = [clone(w0, "pickle") for _ in range(max(wk) + 1)]
@@ -491,6 +545,8 @@ class System:
                 cps[-1].finalise(parts)
             elif ph["end"] == "abort":
                 cps[0].mpu.cancel()
+
+    def _attempt(self, cls, kinds, workers, opts):
         # ---- what the model needs to know about the state the attempt starts in
         self.base_create = self.s3.ncreate
         self.base_calls = len(self.s3.calls)
@@ -505,9 +561,12 @@ class System:
             self.model_extra = "" if not opts.get("pre") else (" N" if left is None else " S")
 
         # ---- the attempt
-        CURRENT["local"] = workers is None
+        # build_without_client: the writer / graph is built before a dask client exists (no `prep_client`,
+        # every worker creates the Variable itself), the tasks then run on a cluster
+        CURRENT["local"] = workers is None or bool(opts.get("build_without_client"))
         mpu = cls("bucket", "some/key.tif")
         writer = mpu.writer(dict(KW))  # real code: looks for a client itself
+        CURRENT["local"] = workers is None
         if workers is None:
             self.writers = [writer]
             wof = [0] * len(kinds)
@@ -663,6 +722,7 @@ def observe(sysm: System) -> Dict[str, Any]:
         "calls": [sysm.canon_call(c) for c in sysm.s3.calls[sysm.base_calls:]],
         "text": sysm.describe(),
         "extra": sysm.model_extra,
+        "pre_error": sysm.pre_error,
         "outcomes": [sysm.outcome(i) for i in range(len(sysm.kinds))],
         "results": [repr(t.result) for t in sysm.sched.threads],
         "ncreate": sysm.s3.ncreate - bc,
